@@ -248,3 +248,45 @@ package transport
 //@   modifies *
 //@   ensures [C18:dialled-conn-registered-or-closed] grc != nil ==> nClose == 1 || (nRel == 0 && has(t.conns, grc)) || nRel == 1
 //@   callsite close?: [C18:closes-the-dialled-conn] arg0 == grc
+
+// exchangeConn: one write of the framed query, then exactly one frame is read as the reply.
+//@ func (t *ReuseConnTransport) exchangeConn(payload []byte, c *reusableConn) (r *dnsmsg.Msg, err error)
+//@   props C06
+//@   requires t != nil && c != nil && c.c != nil
+//@   ghost nW int = 0
+//@   ghost nR int = 0
+//@   oncall Write: nW = nW + 1
+//@   oncall ReadMsgFromTCP?: nR = nR + 1
+//@   modifies pkgheaps(dnsmsg), bytes()
+//@   ensures [C06:one-query-one-reply] nW == 1 && nR <= 1
+//@   ensures (err == nil) == (r != nil)
+//@   callsite Write: [C06:sends-the-payload] sameSlice(arg1, payload, 0, len(payload))
+//@   callsite ReadMsgFromTCP?: [C06:reply-read-from-that-conn] nW == 1
+
+// exchangeConnCtx: the caller never puts the connection back itself; only the goroutine that owns the exchange
+// does, after the exchange is over (so a caller that gives up early cannot offer a connection with a reply
+// still in flight).
+//@ func (t *ReuseConnTransport) exchangeConnCtx(ctx context.Context, payload []byte, c *reusableConn) (r *dnsmsg.Msg, err error)
+//@   props C06
+//@   requires t != nil && c != nil && ctx != nil
+//@   ghost nRel int = 0
+//@   ghost nGo int = 0
+//@   oncall releaseConn?: nRel = nRel + 1
+//@   oncall go: nGo = nGo + 1
+//@   modifies *
+//@   ensures [C06:caller-never-releases] nRel == 0 && nGo == 1
+
+//@ closure ReuseConnTransport.exchangeConnCtx$1
+//@   props C06
+//@   requires t != nil && c != nil && c.c != nil && c.idleTimer != nil && t.idleConns != nil && t.conns != nil && !sameObj(t.idleConns, t.conns) && c.serving && t.logger != nil
+//@   requires resChan != nil
+//@   ghost gErr error = nil
+//@   ghost nRel int = 0
+//@   ghost nEx int = 0
+//@   oncall exchangeConn: nEx = nEx + 1
+//@   aftercall exchangeConn: gErr = ret1
+//@   oncall releaseConn: nRel = nRel + 1
+//@   modifies *
+//@   ensures [C06:released-once-after-the-exchange] nEx == 1 && nRel == 1
+//@   callsite releaseConn: [C06:release-with-the-exchange-outcome] nEx == 1 && arg1 == c && arg2 == gErr
+//@   callsite exchangeConn: [C06:exchange-on-the-owned-conn] arg2 == c
